@@ -538,6 +538,14 @@ func (c *Ctx) callByContract(fr *Frame, st *State, spec *FuncSpec, key string, a
 	for _, cl := range spec.Clauses {
 		switch cl.Kind {
 		case "ensures":
+			if cl.Name == "expanded" {
+				// 256-way expanded facts are only handed to callers that ask for them (flag use_expanded)
+				if top := c.DB.Funcs[strings.TrimSuffix(c.fn, "#lockfast")]; top == nil || top.Flags == nil {
+					continue
+				} else if _, ok := top.Flags["use_expanded"]; !ok {
+					continue
+				}
+			}
 			c.assumeUnder(st, c.evalBool(post, cl.E))
 		case "assume":
 			// definitional assumptions about uninterpreted spec functions hold in every state they mention
